@@ -76,7 +76,9 @@ class C11(Prop):
     ]
     rule = ("soc / toc instances with 1-6 alternatives (ties at the top, complete indifference, planted single-peaked "
             "and perturbed profiles); all axes for m <= 4, 6 random axes otherwise; ILP on ~1/6 of the cases; all "
-            "four functions on soi/toi for the guards; non-trivial = >= 2 orders and >= 3 alternatives")
+            "four functions on soi/toi for the guards; profiles with 8-14 alternatives decided by the verified PQ-tree model; "
+            "30 % with multiplicities, 25 % of the non-ILP cases grown through the append_* entry points; non-trivial = >= 2 "
+            "orders and >= 3 alternatives")
     budget = {"quick": 600, "thorough": 6000}
     anchors = [("preflibtools.properties.subdomains.ordinal.singlepeaked.singlepeakedness", n) for n in
                ("is_single_peaked_axis", "sp_cons_ones_matrix", "is_single_peaked_pq_tree", "is_single_peaked_ILP",
